@@ -652,8 +652,39 @@ fn exercise_calendar<C: DateRoll>(c: &C) {
     }
 }
 
+/// A value that a loader accepted is handed to Python's pickle (which drives the class's
+/// `__getnewargs__`, `__getstate__`, `__new__`, `__setstate__`): an exception is fine (years
+/// Python cannot hold, ...), a panic inside the bindings is not.
+fn pickle_loaded(l: &Loaded) {
+    if crate::orchestrate::bare() {
+        return;
+    }
+    pyo3::Python::with_gil(|py| {
+        use pyo3::Py;
+        let obj: Option<pyo3::PyObject> = match l {
+            Loaded::Dual(v) => Py::new(py, v.clone()).ok().map(|o| o.into_any()),
+            Loaded::Dual2(v) => Py::new(py, v.clone()).ok().map(|o| o.into_any()),
+            Loaded::Cal(v) => Py::new(py, v.clone()).ok().map(|o| o.into_any()),
+            Loaded::Union(v) => Py::new(py, v.clone()).ok().map(|o| o.into_any()),
+            Loaded::Named(v) => Py::new(py, v.clone()).ok().map(|o| o.into_any()),
+            Loaded::Fx(v) => Py::new(py, v.clone()).ok().map(|o| o.into_any()),
+            Loaded::Curve(v) => v.clone().into_py_object(py).ok(),
+            Loaded::SplF(v) => Py::new(py, v.clone()).ok().map(|o| o.into_any()),
+            Loaded::SplD(v) => Py::new(py, v.clone()).ok().map(|o| o.into_any()),
+            Loaded::SplD2(v) => Py::new(py, v.clone()).ok().map(|o| o.into_any()),
+            Loaded::CalType(_) | Loaded::CurveDf(_) => None,
+        };
+        if let Some(o) = obj {
+            if let Ok(bytes) = crate::pyx::dumps(py, o) {
+                let _ = crate::pyx::loads(py, &bytes);
+            }
+        }
+    });
+}
+
 /// Use after load, for types whose query totality follows from the shape invariants alone.
 pub fn exercise(l: &Loaded) {
+    pickle_loaded(l);
     match l {
         Loaded::Dual(d) => {
             let n = Number::Dual(d.clone());
